@@ -209,6 +209,33 @@ impl SparqlNumber {
         }
     }
 
+    /// The exact value of a `Float` or `Double` (as a f64), `None` for the other variants.
+    fn as_binary_float(&self) -> Option<f64> {
+        match self {
+            SparqlNumber::Float(inner) => Some(f64::from(*inner)),
+            SparqlNumber::Double(inner) => Some(*inner),
+            _ => None,
+        }
+    }
+
+    /// Compare the exact mathematical values of two numbers.
+    /// Return `None` if (and only if) one of them is NaN.
+    ///
+    /// Unlike [`PartialOrd`] (which implements the SPARQL operators),
+    /// this method does not coerce integers and decimals to floating point numbers,
+    /// so it never rounds them, and it is a total order on non-NaN numbers.
+    /// As the coercions are monotonic, `x < y` implies `x.exact_cmp(y) == Some(Less)`.
+    pub fn exact_cmp(&self, other: &Self) -> Option<std::cmp::Ordering> {
+        match (self.as_binary_float(), other.as_binary_float()) {
+            (Some(lhs), Some(rhs)) => lhs.partial_cmp(&rhs),
+            (None, None) => self.partial_cmp(&other),
+            (Some(lhs), None) => binary_float_exact_cmp(lhs, other),
+            (None, Some(rhs)) => {
+                binary_float_exact_cmp(rhs, self).map(std::cmp::Ordering::reverse)
+            }
+        }
+    }
+
     fn coercing_operator<F1, F2, F3, F4, F5, OI, O>(
         &self,
         rhs: &Self,
@@ -350,6 +377,29 @@ impl std::cmp::PartialOrd for &'_ SparqlNumber {
             |x, y| x.partial_cmp(&y),
             |x, y| x.partial_cmp(&y),
         )
+    }
+}
+
+/// Compare a floating point number with an integer or a decimal, without rounding any of them.
+///
+/// ## Precondition
+/// Will panic if `rhs` is a `Float` or a `Double`.
+fn binary_float_exact_cmp(lhs: f64, rhs: &SparqlNumber) -> Option<std::cmp::Ordering> {
+    if lhs.is_nan() {
+        None
+    } else if lhs.is_infinite() {
+        if lhs > 0.0 {
+            Some(std::cmp::Ordering::Greater)
+        } else {
+            Some(std::cmp::Ordering::Less)
+        }
+    } else {
+        // this conversion is exact: every finite binary floating point number is a decimal
+        let lhs = BigDecimal::try_from(lhs).ok()?;
+        match rhs {
+            SparqlNumber::Decimal(rhs) => lhs.partial_cmp(rhs),
+            _ => lhs.partial_cmp(&rhs.coerce_to_decimal()),
+        }
     }
 }
 
